@@ -7,6 +7,16 @@ open Mem
 
 open Model_util
 
+(* records of Spec/WireMsg.v, as ref_driver RAW prints them *)
+let print_recs (b : Buffer.t) (rs : WireMsg.wrec list) : unit =
+  List.iter (fun (num, p) ->
+      Buffer.add_string b (Printf.sprintf " %d:" (int_of_z num));
+      match p with
+      | WireMsg.PVar v -> Buffer.add_string b ("0:" ^ hex_of_z_width v 16)
+      | WireMsg.PI64 v -> Buffer.add_string b ("1:" ^ hex_of_z_width v 16)
+      | WireMsg.PLen bs -> Buffer.add_string b ("2:" ^ hex_of_bytes bs)
+      | WireMsg.PI32 v -> Buffer.add_string b ("5:" ^ hex_of_z_width v 8)) rs
+
 (* ---------- tokens *)
 type toks = { arr : string array; mutable pos : int }
 let next t = let s = t.arr.(t.pos) in t.pos <- t.pos + 1; s
@@ -276,6 +286,16 @@ let run_case (env : mdesc array) (envl : mdesc list) (line : string) : string op
                                    (hex_of_bytes st.b_data) (List.length sizes)
                                    (if sizes = [] then "-" else String.concat "," sizes)
                                    nfree (if fscr then 1 else 0) (List.length (live_blocks st2.b_log))))
+       | "SREAD" ->
+         (* the reference reader of Spec/WireMsg.v on arbitrary bytes: R <num:wt:value>* | R - *)
+         let bytes = bytes_of_hex (next t) in
+         (match WireMsg.read_message bytes with
+          | Some rs -> Buffer.add_string b "R"; print_recs b rs
+          | None -> Buffer.add_string b "R -")
+       | "RECS" ->
+         (* the records a message denotes (Impl/Denote.v) *)
+         let m = parse_msg t in
+         Buffer.add_string b "R"; print_recs b (Denote.records envl m)
        | "WFCANON" ->
          (* model only: is the message in the domain of the C02 (wf) and C01 (canonical) theorems? *)
          let m = parse_msg t in
